@@ -952,9 +952,22 @@ def _judge_convergence(g, desc, world, tol, noise_free, call, stats, iscale=1.0)
         # relative poses of the ground truth are reproduced (the anchor is the first vertex, possibly perturbed: compare edges)
         if not float(r.final_chi2) <= 1e-10 * iscale:
             return w("noise-free measurements not reproduced: chi2 > 0", final_chi2=float(r.final_chi2))[0], 0.0
+        from search import spec_np as _S
+
         for e in g._edges:
             if np.max(np.abs(np.asarray(e.calc_error()))) > 1e-6:
                 return w("noise-free relative pose not reproduced", error=np.asarray(e.calc_error()).tolist())[0], 0.0
+            # ... judged by the independent model of the measurement equations as well (what the edge's own calc_error reports
+            # may be stale or differently wrong)
+            sp_ = _S.edge_error(e)
+            if sp_ is not None:
+                sp_ = np.asarray(sp_, dtype=np.float64).copy()
+                if type(e).__name__ == "EdgeOdometry" and len(sp_) == 3:
+                    sp_[2] = math.remainder(sp_[2], 2 * math.pi)
+                if type(e).__name__ == "EdgeOdometry" and len(sp_) == 6:
+                    continue  # (the sign convention of the SE(3) rotational part is the known finding; its magnitude is covered above)
+                if np.max(np.abs(sp_)) > 1e-6:
+                    return w("noise-free measurement not reproduced according to the independent measurement model", spec_error=sp_.tolist(), edge_class=type(e).__name__)[0], 0.0
     else:
         stats["noisy"] += 1
     return None, 0.0
